@@ -298,6 +298,17 @@ func (f *Frame) contractCall(st *State, spec *FuncSpec, callee *ssa.Function, ar
 				f.oblige(st, "FRAME", "call "+cname+" assigns package variable "+t.Glob, pos, f.assignsAllow(t.Glob, Zero))
 				continue
 			}
+			if t.Any {
+				// objects of a kind that is not type-reachable from the root
+				// function's parameters cannot be operands: every such object the
+				// callee can reach was allocated by this activation
+				goal := f.assignsAllow(t.Root+"|"+t.Path, IntT(-9))
+				if !f.paramKinds()[t.Root] {
+					goal = True2()
+				}
+				f.oblige(st, "FRAME", "call "+cname+" assigns "+t.Text, pos, goal)
+				continue
+			}
 			f.oblige(st, "FRAME", "call "+cname+" assigns "+t.Text, pos, Or(Ge(t.Base, vc.A0), Eq(t.Base, Zero), f.assignsAllow(t.Root+"|"+t.Path, t.Base)))
 		}
 	}
@@ -418,7 +429,11 @@ func (f *Frame) havocCall(st *State, pre *State, mods *ModSet, targets []*Assign
 				continue
 			}
 			if strings.HasPrefix(k, t.Root+"|"+t.Path) || (strings.HasPrefix(t.Root, "M|") && mapCompOf(k) == t.Root[2:]) {
-				exc = append(exc, Eq(r, t.Base))
+				if t.Any {
+					exc = append(exc, True)
+				} else {
+					exc = append(exc, Eq(r, t.Base))
+				}
 			}
 		}
 		guard := And(Lt(r, pre.alloc), Not(Or(exc...)))
